@@ -11,6 +11,14 @@ IEEE double arithmetic.  Compared: the rendered lines (ANSI codes stripped), the
 `column_lengths`, every `textwrap.wrap(text, width)` call the wrapper made (text, width and
 result against the Lean `wrap` model) and `int(round(l / a * w))` on probe triples.
 Oracle = the property statement over the rendered text, independent of the Lean model.
+
+Histories (about one case in twelve): the SAME table is rendered two or three times on the SAME I/O while the owner
+of the I/O changes the formatter's style set in between (`io.formatter.add_style(Style("hl"))`,
+`io.set_formatter(...)`), and some cells contain tag-shaped words (`<hl>..</hl>`, `<none>..</>`) that are ordinary
+text for a formatter that does not know them and styles once it does.  Every rendering of the history must be a
+rectangle of the cells as the formatter shows them AT THAT TIME; the model (entry `c14.render_fmt`) removes the format
+itself through the formatter model of C11 and is compared on every rendering, also on what `remove_format` makes of
+every cell.
 """
 import re
 
@@ -27,7 +35,11 @@ LEVEL_TEXT = ("Proved in Lean on the model of the repaired code, for EVERY round
               "it when the right border is not blank), and the lines of every cell concatenated without blanks are the "
               "cell without blanks (from the proved contract of the wrap model). The model is tied to the code by the "
               "correspondence run; the border characters and cell formats of the four styles are regenerated from the "
-              "source on every run.")
+              "source on every run. Cells with style tags on an I/O whose formatter changes: for EVERY resolver "
+              "of tags (style set) under which the cells' tags are properly nested, the rendering of the visible table is a "
+              "rectangle within the terminal (render_decided_styles), hence so is every rendering of a history of renderings "
+              "of one table under changing style sets (render_history_styles); the visible text is computed by the "
+              "formatter model of C11 (Markup.plainFormat).")
 LEVEL_NOTE = ("Trusted: Lean kernel + standard axioms; hand-written model tied by correspondence (rendered lines, column "
               "lengths, every textwrap call, share probes); Lean Float = IEEE binary64 for the executable share. "
               "The hypotheses of the rendering theorems (feasible width, style well-formed, at most n alignments, n >= 1, "
@@ -39,7 +51,8 @@ LEAN_MODULES = ["Clikit.Props.C14"]
 REQUIRED_THEOREMS = ["Clikit.Props.C14." + t for t in (
     "wrap_len", "wrap_content", "wrap_nonempty_lines", "fit_sum", "fit_pos", "fit_ok", "short_cols_keep", "render_ok", "col_width_const",
     "rect", "rect_equal", "within_terminal", "cell_text_preserved", "styles_ok", "right_border_solid",
-    "wf_decides", "render_decided", "cell_text_decided")]
+    "wf_decides", "render_decided", "cell_text_decided",
+    "visibleTable_shape", "wfB_visible", "render_decided_styles", "render_history_styles")]
 RULE = ("random tables: 1-6 columns x 1-6 rows, header or not, cells = word sequences of total length 0..1500 "
         "(empty cells, single words up to 300 chars, repeated/leading blanks, newlines; style-tagged words only in "
         "columns that cannot be wrapped: max visible length * columns <= available width, or the whole table fits), "
@@ -47,6 +60,10 @@ RULE = ("random tables: 1-6 columns x 1-6 rows, header or not, cells = word sequ
         "set to '{}'), 0..n explicit column alignments, indentation 0..8, ANSI forced / plain, terminal width 20..200 "
         "restricted to feasible ones (width - indentation - borders - columns*excess >= columns), a quarter of them within "
         "20 of the smallest feasible width; thorough adds 200 tables at every feasible width 20..200. "
+        "About 8 % of the cases are HISTORIES: words of cells in never-wrapped columns are put into tag-shaped words that the "
+        "default style set does not know (hl, none, mark, k9; closed by name or by </>), and the table is rendered 2-3 times "
+        "on one I/O, the formatter's style set changed in between (add_style on the I/O's formatter when tags are added, "
+        "or set_formatter with a new formatter); every rendering is judged and compared. "
         "A case is non-trivial when at least one cell was wrapped; distinct = distinct (style, header, width, indent, "
         "column lengths, number of wrapped cells, cells hash)")
 TRUSTED_BASE = [
@@ -64,6 +81,10 @@ ASSUMPTIONS = [
     "the short/long split compares length <= available/columns in floats; the model uses the exact length*columns <= available "
     "(identical below 2^53)",
     "cell and border styles (Style objects) are None in the four predefined styles and are not modelled",
+    "histories: a tag-shaped word is a style exactly when its lowered name is in the formatter's style set at the time of the "
+    "rendering (or an inline fg=/bg=/options= specification); cells with such words stand only in columns that are never "
+    "wrapped under ANY of the style sets of the history (D28 otherwise); the model's rendering is a function of the table and "
+    "the current style set - that the code keeps nothing measured under an earlier style set is compared, not proved",
     "the hypotheses feasible / styleOk / alignments <= columns / rightSolid of the Lean theorems hold for the generated "
     "cases: decided by the model on every case (wf) and compared with the geometry computed from the real style",
 ]
@@ -74,6 +95,8 @@ STYLES = ["ascii", "solid", "borderless", "compact"]
 TAGS = ["info", "comment", "question", "error", "b", "u", "c1", "c2", "fg=red", "bg=blue", "fg=red;options=bold"]
 WORD_CHARS = "abcdefghijklmnopqrstuvwxyzABCDEFGHIJKLMNOPQRSTUVWXYZ0123456789" * 3 + ".,;:!?()[]{}*+=/_#@%&'\"|~^$" + "éüßñжλ"
 TAG_RE = re.compile(r"</?[a-z0-9=;_]*>")
+# tag-shaped words the default style set does not know: text, until the owner of the I/O registers a style of that name
+CUSTOM = ["hl", "none", "mark", "k9"]
 ANSI_RE = re.compile("\x1b\\[[0-9;]*m")
 
 
@@ -107,8 +130,16 @@ def feasible(case, width=None):
     return available(case, width) >= case["n"]
 
 
-def visible(cell):
-    return TAG_RE.sub("", cell)
+def visible(cell, custom_known=None):
+    """the text that takes room on the screen.  custom_known = None: every tag-shaped word is a style (cases without
+    a history: only TAGS occur); else: the names of CUSTOM the formatter knows - the other CUSTOM tags are text"""
+    if custom_known is None:
+        return TAG_RE.sub("", cell)
+
+    def sub(m):
+        name = m.group(0).strip("</>").lower()
+        return m.group(0) if (name in CUSTOM and name not in custom_known) else ""
+    return TAG_RE.sub(sub, cell)
 
 
 def _all_rows(case):
@@ -203,13 +234,13 @@ def _min_feasible(case):
     return case["indent"] + border + case["n"] * excess + case["n"]
 
 
-def _style_safe_columns(case):
+def _style_safe_columns(case, custom_known=None):
     """columns in which no cell can ever be wrapped at this width: the whole table fits, or the
     column is short in the first pass (max visible length * columns <= available width)"""
     n = case["n"]
     avail = available(case)
     rows = _all_rows(case)
-    lens = [max(len(visible(r[j]).rstrip()) for r in rows) for j in range(n)]
+    lens = [max(len(visible(r[j], custom_known).rstrip()) for r in rows) for j in range(n)]
     if sum(lens) <= avail:
         return list(range(n))
     return [j for j in range(n) if lens[j] * n <= avail]
@@ -276,8 +307,67 @@ def _finish(rng, case, styled=True):
             for i, r in enumerate(rows):
                 if i != longest and rng.random() < 0.6:
                     r[j] = "<%s>%s</>" % (rng.choice(TAGS), rng.choice("xyz"))
+        if rng.random() < 0.3:
+            _history(rng, case, safe)
     case["probes"] = _share_probes(rng, case)
     return case
+
+
+def _custom_decorate(rng, cell, tags):
+    parts = re.split(r"(\s+)", cell)
+    out, done = [], False
+    for p in parts:
+        if p and not p.isspace() and rng.random() < 0.5:
+            tag = rng.choice(tags)
+            out.append("<%s>%s%s" % (tag, p, "</>" if rng.random() < 0.3 else "</%s>" % tag))
+            done = True
+        else:
+            out.append(p)
+    return "".join(out) if done else None
+
+
+def _history(rng, case, protected):
+    """turn the case into a history of renderings on one I/O whose formatter's style set changes in between:
+    tag-shaped words that are text under one style set and styles under another.  They are put only where no
+    cell is ever wrapped whatever the style set: every column that holds tags (`protected`) must stay style-safe
+    with every CUSTOM tag counted as text (the longest reading; knowing more tags only shortens cells)"""
+    tags = rng.sample(CUSTOM, rng.choice([1, 1, 2]))
+    rows = _all_rows(case)
+    cols = list(protected)
+    rng.shuffle(cols)
+    placed = 0
+    for j in cols:
+        for row in rows:
+            if rng.random() < 0.5:
+                new = _custom_decorate(rng, row[j], tags)
+                if new is None:
+                    continue
+                old = row[j]
+                row[j] = new
+                if set(protected) <= set(_style_safe_columns(case, [])):
+                    placed += 1
+                else:
+                    row[j] = old
+    if not placed:
+        return
+    k = rng.choice([2, 2, 3])
+    phases = []
+    prev = None
+    for i in range(k):
+        while True:
+            known = sorted(t for t in tags if rng.random() < 0.5)
+            if known != prev:
+                break
+        if i == 0:
+            how = "init"
+        elif set(known) >= set(prev) and rng.random() < 0.7:
+            how = "add_style"
+        else:
+            how = "set_formatter"
+        phases.append({"known": known, "how": how})
+        prev = known
+    case["custom"] = tags
+    case["phases"] = phases
 
 
 def generate(tier, rng):
@@ -337,15 +427,30 @@ class _WrapSpy(object):
         return getattr(self._real, name)
 
 
+def _formatter(case, custom_known):
+    from clikit.api.formatter import Style
+    from clikit.formatter import AnsiFormatter, PlainFormatter
+    from clikit.formatter.default_style_set import DefaultStyleSet
+    ss = None
+    if custom_known:
+        ss = DefaultStyleSet()
+        for t in custom_known:
+            ss.add(Style(t).fg("magenta"))
+    if case["ansi"]:
+        return AnsiFormatter(ss, forced=True) if ss is not None else AnsiFormatter(forced=True)
+    return PlainFormatter(ss) if ss is not None else PlainFormatter()
+
+
 def run_impl(case):
     import textwrap as real_textwrap
     import clikit.ui.components.cell_wrapper as cw
+    from clikit.api.formatter import Style
     from clikit.io.buffered_io import BufferedIO
-    from clikit.formatter import AnsiFormatter, PlainFormatter
     from clikit.ui.components import Table
     from clikit.ui.rectangle import Rectangle
 
-    fmt = AnsiFormatter(forced=True) if case["ansi"] else PlainFormatter()
+    phases = case.get("phases")
+    fmt = _formatter(case, phases[0]["known"] if phases else None)
     io = BufferedIO(formatter=fmt)
     io.set_terminal_dimensions(Rectangle(case["width"], 24))
     st = _style(case["style"], case.get("hfmt"))
@@ -355,8 +460,6 @@ def run_impl(case):
     if case["header"] is not None:
         table.set_header_row(list(case["header"]))
     table.add_rows([list(r) for r in case["rows"]])
-    before = ([str(c) for c in table._header_row], [[str(c) for c in r] for r in table._rows])
-    before_ids = (id(table._header_row), [id(r) for r in table._rows])
     captured = []
     orig = table._get_cell_wrapper
 
@@ -366,32 +469,66 @@ def run_impl(case):
         return w
 
     table._get_cell_wrapper = spy
-    wspy = _WrapSpy(real_textwrap)
-    saved = cw.textwrap
-    cw.textwrap = wspy
-    exc = None
-    try:
+    pos = [0, 0]
+
+    def render_once():
+        before = ([str(c) for c in table._header_row], [[str(c) for c in r] for r in table._rows])
+        before_ids = (id(table._header_row), [id(r) for r in table._rows])
+        del captured[:]
+        wspy = _WrapSpy(real_textwrap)
+        saved = cw.textwrap
+        cw.textwrap = wspy
+        exc = None
         try:
-            table.render(io, case["indent"])
-        except Exception as e:  # canonical: class name only
-            exc = type(e).__name__
-    finally:
-        cw.textwrap = saved
-    out = io.fetch_output()
-    err = io.fetch_error()
-    after = ([str(c) for c in table._header_row], [[str(c) for c in r] for r in table._rows])
-    after_ids = (id(table._header_row), [id(r) for r in table._rows])
-    shares = [[l, a, w, int(round((l / a) * w))] for (l, a, w) in case.get("probes", [])]
-    return {
-        "exc": exc,
-        "out": out,
-        "stderr": err,
-        "column_lengths": [int(x) for x in captured[0].column_lengths] if captured and exc is None else None,
-        "wraps": wspy.calls,
-        "untouched": before == after and before_ids == after_ids
-        and after == ([] if case["header"] is None else list(case["header"]), [list(r) for r in case["rows"]]),
-        "shares": shares,
-    }
+            try:
+                table.render(io, case["indent"])
+            except Exception as e:  # canonical: class name only
+                exc = type(e).__name__
+        finally:
+            cw.textwrap = saved
+        out = io.fetch_output()
+        err = io.fetch_error()
+        out, err, pos[0], pos[1] = out[pos[0]:], err[pos[1]:], len(out), len(err)
+        after = ([str(c) for c in table._header_row], [[str(c) for c in r] for r in table._rows])
+        after_ids = (id(table._header_row), [id(r) for r in table._rows])
+        return {
+            "exc": exc,
+            "out": out,
+            "stderr": err,
+            "column_lengths": [int(x) for x in captured[0].column_lengths] if captured and exc is None else None,
+            "wraps": wspy.calls,
+            "untouched": before == after and before_ids == after_ids
+            and after == ([] if case["header"] is None else list(case["header"]), [list(r) for r in case["rows"]]),
+        }
+
+    def shown():
+        """what the formatter of the I/O, as it is now, makes of every cell"""
+        f = io.formatter
+        return [[f.remove_format(c) for c in r] for r in _all_rows(case)]
+
+    if not phases:
+        obs = render_once()
+    else:
+        # the same table on the same I/O, the formatter's style set changed by the owner of the I/O in between
+        obs = None
+        more = []
+        for i, ph in enumerate(phases):
+            if ph["how"] == "add_style":
+                for t in ph["known"]:
+                    if t not in phases[i - 1]["known"]:
+                        io.formatter.add_style(Style(t).fg("magenta"))
+            elif ph["how"] == "set_formatter":
+                io.set_formatter(_formatter(case, ph["known"]))
+            vis = shown()
+            r = render_once()
+            r["visible"] = vis
+            if i == 0:
+                obs = r
+            else:
+                more.append(r)
+        obs["more"] = more
+    obs["shares"] = [[l, a, w, int(round((l / a) * w))] for (l, a, w) in case.get("probes", [])]
+    return obs
 
 
 def _lines(out):
@@ -403,7 +540,23 @@ def _lines(out):
 
 
 # --------------------------------------------------------------------------- model
+def _fmt_request(case, known):
+    """a rendering of a history: the cells WITH their tags and the tags the formatter knows at that time"""
+    rq = {"m": "c14.render_fmt", "style": case["style"], "n": case["n"],
+          "header": None if case["header"] is None else list(case["header"]),
+          "rows": [list(r) for r in case["rows"]],
+          "alignments": case["aligns"], "width": case["width"], "indent": case["indent"],
+          "styles": TAGS + list(known)}
+    if case.get("hfmt") is not None:
+        i = case["hfmt"].index("{}")
+        rq["header_format"] = [case["hfmt"][:i], case["hfmt"][i + 2:]]
+    return rq
+
+
 def model_requests(case):
+    probes = [{"m": "c14.share", "l": l, "a": a, "w": w} for (l, a, w) in case.get("probes", [])]
+    if case.get("phases"):
+        return [_fmt_request(case, ph["known"]) for ph in case["phases"]] + probes
     rq = {"m": "c14.render", "style": case["style"], "n": case["n"],
           "header": None if case["header"] is None else [visible(c) for c in case["header"]],
           "rows": [[visible(c) for c in r] for r in case["rows"]],
@@ -414,15 +567,27 @@ def model_requests(case):
     return [rq] + [{"m": "c14.share", "l": l, "a": a, "w": w} for (l, a, w) in case.get("probes", [])]
 
 
-def model_obs(case, answers):
-    a = answers[0]
-    shares = [[p[0], p[1], p[2], v] for p, v in zip(case.get("probes", []), answers[1:])]
-    wf = a.get("wf")
+def _model_render(a, with_visible):
     if "err" in a:
-        return {"exc": a["err"], "lines": None, "column_lengths": None, "wraps": None, "shares": shares, "wf": wf}
-    r = a["ok"]
-    return {"exc": None, "lines": r["lines"], "column_lengths": r["column_lengths"], "wraps": r["wraps"], "shares": shares,
-            "wf": wf}
+        v = {"exc": a["err"], "lines": None, "column_lengths": None, "wraps": None}
+    else:
+        r = a["ok"]
+        v = {"exc": None, "lines": r["lines"], "column_lengths": r["column_lengths"], "wraps": r["wraps"]}
+    if with_visible:
+        v["visible"] = a.get("visible")
+    return v
+
+
+def model_obs(case, answers):
+    k = len(case.get("phases") or [None])
+    a = answers[0]
+    shares = [[p[0], p[1], p[2], v] for p, v in zip(case.get("probes", []), answers[k:])]
+    out = _model_render(a, bool(case.get("phases")))
+    out["shares"] = shares
+    out["wf"] = a.get("wf")
+    if case.get("phases"):
+        out["more"] = [_model_render(b, True) for b in answers[1:k]]
+    return out
 
 
 def _wf_real(case):
@@ -438,12 +603,23 @@ def _wf_real(case):
             "all": feas and aligns and npos}
 
 
+def _impl_render(r, with_visible):
+    if r["exc"] is not None:
+        v = {"exc": r["exc"], "lines": None, "column_lengths": None, "wraps": None}
+    else:
+        v = {"exc": None, "lines": _lines(r["out"]), "column_lengths": r["column_lengths"], "wraps": r["wraps"]}
+    if with_visible:
+        v["visible"] = r.get("visible")
+    return v
+
+
 def impl_view(case, obs):
-    wf = _wf_real(case)
-    if obs["exc"] is not None:
-        return {"exc": obs["exc"], "lines": None, "column_lengths": None, "wraps": None, "shares": obs["shares"], "wf": wf}
-    return {"exc": None, "lines": _lines(obs["out"]), "column_lengths": obs["column_lengths"],
-            "wraps": obs["wraps"], "shares": obs["shares"], "wf": wf}
+    out = _impl_render(obs, bool(case.get("phases")))
+    out["shares"] = obs["shares"]
+    out["wf"] = _wf_real(case)
+    if case.get("phases"):
+        out["more"] = [_impl_render(r, True) for r in obs["more"]]
+    return out
 
 
 # --------------------------------------------------------------------------- oracle (the statement)
@@ -452,6 +628,22 @@ def _nb(s):
 
 
 def oracle(case, obs):
+    """the statement, for the rendering of the case - and for EVERY rendering of a history (the same table on the
+    same I/O after the owner of the I/O changed the formatter's style set): the cells are the cells as the
+    formatter shows them at the time of that rendering"""
+    phases = case.get("phases")
+    if not phases:
+        return _oracle_one(case, obs, None)
+    for i, (ph, r) in enumerate(zip(phases, [obs] + list(obs["more"]))):
+        v = _oracle_one(case, r, ph["known"])
+        if v:
+            return "rendering %d of %d on one I/O (formatter knows %s%s): %s" % (
+                i + 1, len(phases), ph["known"] or "no private tag",
+                "" if i == 0 else ", changed by " + ph["how"], v)
+    return None
+
+
+def _oracle_one(case, obs, custom_known):
     """rendering succeeds; all lines have one visible width <= terminal width (modulo the trailing
     blanks draw_row strips when the right border is blank); every column has the same width in every
     row; a cell's lines read top to bottom give back its characters, spacing aside; the table is
@@ -537,7 +729,7 @@ def oracle(case, obs):
         k += 1
     for ri, row in enumerate(rows):
         fmt = st.header_cell_format if (has_header and ri == 0) else st.cell_format
-        want = [_nb(visible(c)) for c in row]
+        want = [_nb(visible(c, custom_known)) for c in row]
         acc = [""] * n
         used = 0
         while True:
@@ -580,9 +772,10 @@ def bucket(case, obs):
         return "raised:" + obs["exc"]
     cut = any(any(len(w) > c[1] for w in c[0].split()) for c in obs["wraps"])
     styled = any("<" in c for r in _all_rows(case) for c in r)
-    return "%s|%s|%s%s" % (case["style"] + ("+hfmt" if case.get("hfmt") else ""),
-                           "hdr" if case["header"] is not None else "nohdr",
-                           "cut" if cut else ("wrap" if obs["wraps"] else "fit"), "|styled" if styled else "")
+    return "%s|%s|%s%s%s" % (case["style"] + ("+hfmt" if case.get("hfmt") else ""),
+                             "hdr" if case["header"] is not None else "nohdr",
+                             "cut" if cut else ("wrap" if obs["wraps"] else "fit"), "|styled" if styled else "",
+                             "|style set changed between %d renderings" % len(case["phases"]) if case.get("phases") else "")
 
 
 # --------------------------------------------------------------------------- known finding D28
@@ -591,9 +784,10 @@ def known_class(case, obs, verdict):
     was handed to textwrap.wrap (which is not format-aware and cuts inside the tag)"""
     if not isinstance(obs, dict):
         return None
-    for call in obs.get("wraps") or []:
-        if TAG_RE.search(call[0]):
-            return "D28"
+    for r in [obs] + list(obs.get("more") or []):
+        for call in r.get("wraps") or []:
+            if TAG_RE.search(call[0]):
+                return "D28"
     return None
 
 
@@ -610,6 +804,9 @@ def _copy(case):
     c["header"] = None if case["header"] is None else list(case["header"])
     c["aligns"] = list(case["aligns"])
     c["probes"] = [list(p) for p in case.get("probes", [])]
+    if case.get("phases"):
+        c["phases"] = [{"known": list(ph["known"]), "how": ph["how"]} for ph in case["phases"]]
+        c["custom"] = list(case.get("custom", []))
     return c
 
 
@@ -618,8 +815,25 @@ def _ok(c):
         c.get("hfmt") is None or c["header"] is None)
 
 
+def _phase_variants(case):
+    """shorter histories (a history of one rendering is still a history: same entry of the model)"""
+    ph = case.get("phases") or []
+    if len(ph) > 1:
+        for i in range(len(ph)):
+            c = _copy(case)
+            rest = c["phases"][:i] + c["phases"][i + 1:]
+            rest[0]["how"] = "init"
+            for a, b in zip(rest, rest[1:]):
+                if b["how"] == "add_style" and not set(b["known"]) >= set(a["known"]):
+                    b["how"] = "set_formatter"
+            c["phases"] = rest
+            yield c
+
+
 def shrink(case):
-    # fewer probes, rows, columns; no header; shorter cells; simpler parameters
+    # fewer renderings, probes, rows, columns; no header; shorter cells; simpler parameters
+    for c in _phase_variants(case):
+        yield c
     if case.get("probes"):
         c = _copy(case)
         c["probes"] = []
